@@ -52,8 +52,9 @@ def _argsort(x, axis=-1):
 
 class Spectrum:
     """ghost enumeration of the eigenpairs: w(c), V(r, c); `tag` is the z3 function whose application identifies the member"""
-    def __init__(self, n, w, V, tag, real, note):
+    def __init__(self, n, w, V, tag, real, note, orthonormal=False):
         self.n, self.w, self.V, self.tag, self.real, self.note = n, w, V, tag, real, note
+        self.orthonormal = orthonormal      # the enumeration's vectors are orthonormal (identity columns / unitary factor of eigh)
 
 
 def fresh_spectrum(n, label, real, ascending=False, dtype=None):
@@ -62,7 +63,7 @@ def fresh_spectrum(n, label, real, ascending=False, dtype=None):
     if ascending:
         p, q = z3.Ints("p?w q?w")
         CTX.assume(z3.ForAll([p, q], z3.Implies(z3.And(0 <= p, p <= q, q < iterm(n)), wf(p) <= wf(q)), patterns=[z3.MultiPattern(wf(p), wf(q))]))
-    sp = Spectrum(n, lambda c: wf(c), lambda r, c: Vf(r, c), wf, real, label)
+    sp = Spectrum(n, lambda c: wf(c), lambda r, c: Vf(r, c), wf, real, label, orthonormal=ascending)
     wdt = np.float64 if real else np.complex128
     w_arr = IArr((n,), lambda c: [Ent([], wf(c))], wdt, fresh=True)
     V_arr = IArr((n, n), lambda r, c: [Ent([], Vf(r, c))], dtype or wdt, fresh=True)
@@ -136,13 +137,13 @@ def run(chk):
     return replayer
 
 
-def rule_one(atype, algtype, dt, which, ann, low):
+def rule_one(atype, algtype, dt, which, ann, low, prop="C10"):
     from vcgen.rules import sym_dim
     import cola
     from cola.ops import operators as O
     import importlib
     lowtxt = "" if low is None else (";lower" if low else ";upper")
-    keybase = f"C10/eig[{atype},{algtype};{dt};{which}{lowtxt}]"
+    keybase = f"{prop}/eig[{atype},{algtype};{dt};{which}{lowtxt}]"
     fnname = f"cola.linalg.eig.eigs.eig[{atype},{algtype}]"
     alg.ESCALATE[0] = not known_related(keybase)
     t0 = time.time()
@@ -161,13 +162,13 @@ def rule_one(atype, algtype, dt, which, ann, low):
         # ------------------------------------------------------------ operand and ghost spectrum
         if atype == "Identity":
             A = O.Identity(shape=(n, n), dtype=dtype)
-            sp = Spectrum(n, lambda c: z3.RealVal(1), lambda r, c: z3.If(r == c, z3.RealVal(1), z3.RealVal(0)), None, True, "identity")
+            sp = Spectrum(n, lambda c: z3.RealVal(1), lambda r, c: z3.If(r == c, z3.RealVal(1), z3.RealVal(0)), None, True, "identity", orthonormal=True)
             entry = lambda r, c: z3.If(r == c, z3.RealVal(1), z3.RealVal(0))  # noqa
         elif atype == "Diagonal":
             d = z3.Function(CTX.fresh("d"), I, R)
             A = O.Diagonal(IArr((n,), lambda c: [Ent([], d(c))], dtype, fresh=False))
             real_spec = dt == "real"
-            sp = Spectrum(n, lambda c: d(c), lambda r, c: z3.If(r == c, z3.RealVal(1), z3.RealVal(0)), d, real_spec, "diagonal")
+            sp = Spectrum(n, lambda c: d(c), lambda r, c: z3.If(r == c, z3.RealVal(1), z3.RealVal(0)), d, real_spec, "diagonal", orthonormal=True)
             entry = lambda r, c: z3.If(r == c, d(r), z3.RealVal(0))  # noqa
         elif atype == "Triangular":
             t = z3.Function(CTX.fresh("t"), I, I, R)
@@ -291,6 +292,19 @@ def rule_one(atype, algtype, dt, which, ann, low):
         for ax in mag_axioms(sp.real):
             CTX.assume(ax)
         kt = iterm(kk)
+        if prop == "C05":
+            # annotations the rule attaches to the vectors it returns must be true of them (the ghost enumeration says whether its vectors are orthonormal;
+            # the returned ones are distinct members by C10's own obligations)
+            anns = sorted(a.__name__ for a in getattr(vecs, "annotations", set()))
+            out = []
+            if "Unitary" in anns:
+                out.append(("reported Unitary is true of the returned vectors: square (k = n for every admissible k) and orthonormal", z3.And(kt == n.term, z3.BoolVal(sp.orthonormal))))
+            elif "Stiefel" in anns:
+                out.append(("reported Stiefel is true of the returned vectors: orthonormal columns", z3.BoolVal(sp.orthonormal)))
+            for a_ in anns:
+                if a_ not in ("Unitary", "Stiefel"):
+                    out.append((f"reported {a_} on the eigenvector operator", z3.BoolVal(False)))
+            return out or [("no annotation reported", z3.BoolVal(True))]
         # ------------------------------------------------------------ goals
         Vd = vecs.to_dense() if hasattr(vecs, "to_dense") else vecs
         goals.append(("k values and an n x k operator of vectors", z3.And(len(vals.shape) == 1, iterm(vals.shape[0]) == kt, len(Vd.shape) == 2,
@@ -523,3 +537,18 @@ def check_auto(chk):
         ob.witness = dict(engine="EIGAUTO", clause=bad[0])
     chk.add(ob)
     chk.under_contract("cola.linalg.eig.eigs.eig[LinearOperator,Auto]")
+
+
+def annotation_obligations(chk):
+    """C05 (b'): annotations attached by the eig rules to the eigenvector operator they return"""
+    tasks = []
+    for atype, algtype, dts, ann in RULES:
+        if algtype == "PowerIteration":
+            continue
+        lows = [True] if atype == "Triangular" else [None]
+        for low in lows:
+            tasks.append((atype, algtype, "real", "LM", ann, low, "C05"))
+    for obs in pmap(lambda i: rule_one(*tasks[i]), len(tasks)):
+        for ob in obs:
+            ob.engine = "IDX"
+            chk.add(ob)
